@@ -45,6 +45,7 @@ def cases(ctx, n):
         rules = []
         for _ in range(rng.choice([1, 1, 2])):
             els = [gen.formula(rng, ATOMS, rng.randint(1, 3), gen.HEAD_UN, gen.HEAD_BIN, None, ['true', 'false', 'initial', 'final'], nfold=0.3, leaf=0.25) for _ in range(rng.choice([1, 1, 1, 2]))]
+            els = [e for i_, e in enumerate(els) if e not in els[:i_]]          # gringo keeps the elements of a theory atom as a set
             rules.append((rng.choice(['initial', 'always', 'always', 'dynamic']), els))
         if len({tuple(map(json.dumps, els)) for _, els in rules}) == len(rules):       # equal texts are one ground theory atom
             out.append(rules)
